@@ -45,13 +45,13 @@ def check(ctx):
     ctx.consult('rgxlib/twprge.py', 'unpack/unpackers.py',
                 'plssdesc/plss_preprocess.py', 'config/master_config.py')
     twprge = g('twprge_regex')
-    _inc(ctx, 'RX-LANG', 'twprge_regex', F.TWPRGE_FULL, twprge, 'full spellings')
-    _inc(ctx, 'RX-LANG', 'twprge_regex', F.TWPRGE_CANON, twprge, 'canonical T#N-R#W')
-    _inc(ctx, 'RX-LANG', 'pp_twprge_no_nswe', F.TWPRGE_NO_NSWE, g('pp_twprge_no_nswe'), 'T and R, directions missing')
-    _inc(ctx, 'RX-LANG', 'pp_twprge_no_nsr', F.TWPRGE_NO_NSR, g('pp_twprge_no_nsr'), 'T and e/w, n/s and R missing')
-    _inc(ctx, 'RX-LANG', 'pp_twprge_no_ewt', F.TWPRGE_NO_EWT, g('pp_twprge_no_ewt'), 'R and n/s, T and e/w missing')
-    _inc(ctx, 'RX-LANG', 'pp_twprge_ocr_scrub', F.TWPRGE_OCR, g('pp_twprge_ocr_scrub'), 'OCR look-alike digits')
-    _inc(ctx, 'RX-LANG', 'pp_twprge_pm', F.TWPRGE_CANON + F.PM_TAIL, g('pp_twprge_pm'), 'Twp/Rge + principal meridian')
+    ctx.attempt(_inc, 'RX-LANG', 'twprge_regex', F.TWPRGE_FULL, twprge, 'full spellings')
+    ctx.attempt(_inc, 'RX-LANG', 'twprge_regex', F.TWPRGE_CANON, twprge, 'canonical T#N-R#W')
+    ctx.attempt(_inc, 'RX-LANG', 'pp_twprge_no_nswe', F.TWPRGE_NO_NSWE, g('pp_twprge_no_nswe'), 'T and R, directions missing')
+    ctx.attempt(_inc, 'RX-LANG', 'pp_twprge_no_nsr', F.TWPRGE_NO_NSR, g('pp_twprge_no_nsr'), 'T and e/w, n/s and R missing')
+    ctx.attempt(_inc, 'RX-LANG', 'pp_twprge_no_ewt', F.TWPRGE_NO_EWT, g('pp_twprge_no_ewt'), 'R and n/s, T and e/w missing')
+    ctx.attempt(_inc, 'RX-LANG', 'pp_twprge_ocr_scrub', F.TWPRGE_OCR, g('pp_twprge_ocr_scrub'), 'OCR look-alike digits')
+    ctx.attempt(_inc, 'RX-LANG', 'pp_twprge_pm', F.TWPRGE_CANON + F.PM_TAIL, g('pp_twprge_pm'), 'Twp/Rge + principal meridian')
     _inc(ctx, 'RX-LANG', 'pp_twprge_comma_remove', F.TWPRGE_FULL + r"[,;:]?[ ]?",
          g('pp_twprge_comma_remove'), 'Twp/Rge + trailing comma')
 
@@ -74,11 +74,11 @@ def check(ctx):
                   detail_bad=f"group {grp!r} missing from twprge_regex",
                   key=f"RX-GROUPS|twprge_regex|{grp}")
 
-    _tables(ctx)
-    _unpack_defuse(ctx)
-    _ocr_table(ctx)
-    _fixed_twprge(ctx)
-    _calltime_defaults(ctx)
+    ctx.attempt(_tables)
+    ctx.attempt(_unpack_defuse)
+    ctx.attempt(_ocr_table)
+    ctx.attempt(_fixed_twprge)
+    ctx.attempt(_calltime_defaults)
 
 
 def _tables(ctx):
@@ -351,4 +351,4 @@ def _callsites_pass(ctx, fi, p, rule):
 
 
 def _calltime_defaults(ctx):
-    calltime_defaults(ctx)
+    ctx.attempt(calltime_defaults)
